@@ -1,91 +1,176 @@
-From Coq Require Import List NArith ZArith Lia Bool ZifyN ZifyNat ZifyBool.
+(* XM — XDR codec over a closed descriptor grammar.  One generic encoder/decoder pair; the
+   descriptors of the repository's codec (Gen/GenXdr.v, translated from nfstypes/nfs_xdr.go) and of
+   RFC 1813 (Gen/GenRfc.v, translated from the RFC's prot.x) are data.  All recursion is on fuel, so
+   recursive types (entry lists) need no special treatment. *)
+From Coq Require Import List NArith Bool String.
+From V Require Import Model.Lib.
 Import ListNotations.
 Open Scope N_scope.
-Ltac Zify.zify_post_hook ::= Z.div_mod_to_equations.
-
-(* bytes as N < 256 for the spike *)
-Definition byte := N.
-Definition be32 (n:N) : list byte := [n / 16777216 mod 256; n / 65536 mod 256; n / 256 mod 256; n mod 256].
-Definition de32 (l:list byte) : option (N * list byte) :=
-  match l with a::b::c::d::r => Some (a*16777216 + b*65536 + c*256 + d, r) | _ => None end.
-
-Lemma de32_be32 n r : n < 4294967296 -> de32 (be32 n ++ r) = Some (n, r).
-Proof. intros H. unfold be32, de32. simpl. f_equal. f_equal.
-  lia. Qed.
-
-Definition pad (n:N) : N := (4 - n mod 4) mod 4.
-Definition zeros (n:N) : list byte := repeat 0 (N.to_nat n).
 
 Inductive ty :=
-| TU32 | TBool | TVar (max: option N) | TUnit | TPair (a b: ty)
-| TUnion (a: arms) | TChain (t: ty)
-with arms := ADef (t: ty) | ACase (tag:N) (t: ty) (rest: arms).
+| TU32 | TU64 | TBool
+| TFixed (n : N)                 (* opaque[n] *)
+| TVar (max : option N)          (* opaque<max> / string<max> *)
+| TOpt (t : ty)                  (* optional data: bool then value *)
+| TArr32                         (* counted array of 32-bit words: u32 count then the words *)
+| TRef (nm : string)             (* named type *)
+| TSeq (items : list item)       (* struct / union body *)
+with item :=
+| IField (nm : string) (t : ty)
+| ISwitch (on : string) (arms : list (N * list item)) (dflt : option (list item)).
 
-Inductive val := VU32 (n:N) | VBool (b:bool) | VBytes (l: list byte) | VUnit | VPair (a b: val)
-| VUnion (tag:N) (v:val) | VList (l: list val).
+Definition env := list (string * ty).
+Fixpoint lookup_ty (e : env) (nm : string) : option ty :=
+  match e with [] => None | (n, t) :: r => if String.eqb n nm then Some t else lookup_ty r nm end.
 
-Fixpoint arm_of (a:arms) (tag:N) : ty :=
-  match a with ADef t => t | ACase g t r => if g =? tag then t else arm_of r tag end.
+(* values: numbers (also booleans 0/1 and discriminants), byte strings, optional, arrays, and the
+   fields of a struct/union body in wire order *)
+Inductive val :=
+| VN (n : N) | VB (b : bytes) | VO (o : option val) | VL (l : list val) | VS (fields : list (string * val)).
 
-Definition lenN {A} (l:list A) : N := N.of_nat (length l).
+(* big-endian words *)
+Fixpoint be (n : nat) (x : N) : bytes :=
+  match n with O => [] | S n => be n (x / 256) ++ [byte_of_N x] end.
+Fixpoint unbe (l : bytes) (acc : N) : N :=
+  match l with [] => acc | b :: r => unbe r (acc * 256 + Byte.to_N b) end.
 
-Section enc.
-Fixpoint enc (t:ty) (v:val) {struct t} : option (list byte) :=
-  match t, v with
-  | TU32, VU32 n => if n <? 4294967296 then Some (be32 n) else None
-  | TBool, VBool b => Some (be32 (if b then 1 else 0))
-  | TVar max, VBytes l =>
-      let n := lenN l in
-      if (n <? 4294967296) && (match max with Some m => n <=? m | None => true end)
-      then Some (be32 n ++ l ++ zeros (pad n)) else None
-  | TUnit, VUnit => Some []
-  | TPair a b, VPair x y => match enc a x, enc b y with Some p, Some q => Some (p ++ q) | _,_ => None end
-  | TUnion a, VUnion tag v =>
-      if tag <? 4294967296 then
-      match enc_arm a tag v with Some p => Some (be32 tag ++ p) | None => None end else None
-  | TChain t, VList l =>
-      (fix go (l:list val) : option (list byte) :=
-        match l with [] => Some (be32 0)
-        | x::r => match enc t x, go r with Some p, Some q => Some (be32 1 ++ p ++ q) | _,_ => None end end) l
-  | _, _ => None
-  end
-with enc_arm (a:arms) (tag:N) (v:val) {struct a} : option (list byte) :=
-  match a with
-  | ADef t => enc t v
-  | ACase g t r => if g =? tag then enc t v else enc_arm r tag v
+Definition pad_len (n : N) : N := (4 - n mod 4) mod 4.
+Definition W32 : N := 4294967296.
+Definition W64 : N := 18446744073709551616.
+
+Fixpoint field_val (seen : list (string * val)) (nm : string) : option N :=
+  match seen with
+  | [] => None
+  | (n, v) :: r => if String.eqb n nm then match v with VN x => Some x | _ => None end else field_val r nm
   end.
-End enc.
 
-Fixpoint skipN {A} (n:nat) (l:list A) : option (list A) :=
-  match n, l with O, _ => Some l | S n, _::r => skipN n r | S _, [] => None end.
-Fixpoint takeN {A} (n:nat) (l:list A) : option (list A * list A) :=
-  match n, l with O, _ => Some ([], l) | S n, x::r => match takeN n r with Some (a,b) => Some (x::a, b) | None => None end | S _, [] => None end.
+Fixpoint find_arm {A} (arms : list (N * A)) (d : N) : option A :=
+  match arms with [] => None | (k, a) :: r => if k =? d then Some a else find_arm r d end.
 
-Fixpoint dec (fuel:nat) (t:ty) (l:list byte) {struct fuel} : option (val * list byte) :=
-  match fuel with O => None | S f =>
-  match t with
-  | TU32 => match de32 l with Some (n,r) => Some (VU32 n, r) | None => None end
-  | TBool => match de32 l with Some (n,r) => Some (VBool (negb (n =? 0)), r) | None => None end
-  | TVar max => match de32 l with
-      | Some (n,r) => if (match max with Some m => n <=? m | None => true end) then
-           match takeN (N.to_nat n) r with
-           | Some (b, r') => match skipN (N.to_nat (pad n)) r' with Some r'' => Some (VBytes b, r'') | None => None end
-           | None => None end else None
-      | None => None end
-  | TUnit => Some (VUnit, l)
-  | TPair a b => match dec f a l with Some (x,r) => match dec f b r with Some (y,r') => Some (VPair x y, r') | None => None end | None => None end
-  | TUnion a => match de32 l with Some (tag, r) => match dec f (arm_of a tag) r with Some (v,r') => Some (VUnion tag v, r') | None => None end | None => None end
-  | TChain t' => match de32 l with
-      | Some (n, r) => if n =? 0 then Some (VList [], r) else
-          match dec f t' r with Some (x, r') => match dec f (TChain t') r' with Some (VList xs, r'') => Some (VList (x::xs), r'') | _ => None end | None => None end
+(* words of a counted array *)
+Fixpoint enc_words (l : list val) : option bytes :=
+  match l with
+  | [] => Some []
+  | VN n :: r => if n <? W32 then match enc_words r with Some b => Some (be 4 n ++ b) | None => None end else None
+  | _ :: _ => None
+  end.
+
+(* ---------- encoder ---------- *)
+Section Enc.
+Variable E : env.
+
+Fixpoint enc (f : nat) (t : ty) (v : val) {struct f} : option bytes :=
+  match f with O => None | S f' =>
+  match t, v with
+  | TU32, VN n => if n <? W32 then Some (be 4 n) else None
+  | TU64, VN n => if n <? W64 then Some (be 8 n) else None
+  | TBool, VN n => if n <? 2 then Some (be 4 n) else None
+  | TFixed k, VB b => if lenN b =? k then Some (b ++ zeros (pad_len k)) else None
+  | TVar mx, VB b =>
+      if (lenN b <? W32) && (match mx with Some m => lenN b <=? m | None => true end)
+      then Some (be 4 (lenN b) ++ b ++ zeros (pad_len (lenN b))) else None
+  | TOpt t', VO None => Some (be 4 0)
+  | TOpt t', VO (Some x) => match enc f' t' x with Some bs => Some (be 4 1 ++ bs) | None => None end
+  | TArr32, VL l =>
+      if lenN l <? W32 then
+        match enc_words l with Some bs => Some (be 4 (lenN l) ++ bs) | None => None end
+      else None
+  | TRef nm, _ => match lookup_ty E nm with Some t' => enc f' t' v | None => None end
+  | TSeq items, VS fs => enc_items f' items fs []
+  | _, _ => None
+  end end
+with enc_items (f : nat) (items : list item) (fs seen : list (string * val)) {struct f} : option bytes :=
+  match f with O => None | S f' =>
+  match items with
+  | [] => match fs with [] => Some [] | _ => None end
+  | IField nm t :: rest =>
+      match fs with
+      | (n, v) :: fs' =>
+          if String.eqb n nm then
+            match enc f' t v, enc_items f' rest fs' ((n, v) :: seen) with
+            | Some a, Some b => Some (a ++ b) | _, _ => None end
+          else None
+      | [] => None end
+  | ISwitch on arms dflt :: rest =>
+      match field_val seen on with
+      | Some d =>
+          match (match find_arm arms d with Some a => Some a | None => dflt end) with
+          | Some body => enc_items f' (body ++ rest) fs seen
+          | None => None end
       | None => None end
   end end.
+End Enc.
 
-(* size of a value, to supply fuel *)
-Fixpoint vsize (v:val) : nat :=
-  match v with VPair a b => S (vsize a + vsize b) | VUnion _ v => S (vsize v)
-  | VList l => S ((fix go l := match l with [] => O | x::r => S (vsize x + go r) end) l) | _ => 1%nat end.
+(* ---------- decoder ---------- *)
+Section Dec.
+Variable E : env.
 
-Fixpoint tsize (t:ty) : nat :=
-  match t with TPair a b => S (tsize a + tsize b) | TUnion a => S (asize a) | TChain t => S (tsize t) | _ => 1%nat end
-with asize (a:arms) : nat := match a with ADef t => S (tsize t) | ACase _ t r => S (tsize t + asize r) end.
+Definition take_bytes (n : N) (bs : bytes) : option (bytes * bytes) :=
+  if n <=? lenN bs then Some (takeN n bs, dropN n bs) else None.
+Definition word (n : nat) (bs : bytes) : option (N * bytes) :=
+  match take_bytes (N.of_nat n) bs with Some (w, r) => Some (unbe w 0, r) | None => None end.
+
+Fixpoint dec_words (k : nat) (bs : bytes) : option (list val * bytes) :=
+  match k with
+  | O => Some ([], bs)
+  | S k' => match word 4 bs with
+            | Some (n, r) => match dec_words k' r with Some (l, r') => Some (VN n :: l, r') | None => None end
+            | None => None end
+  end.
+
+Fixpoint dec (f : nat) (t : ty) (bs : bytes) {struct f} : option (val * bytes) :=
+  match f with O => None | S f' =>
+  match t with
+  | TU32 => match word 4 bs with Some (n, r) => Some (VN n, r) | None => None end
+  | TU64 => match word 8 bs with Some (n, r) => Some (VN n, r) | None => None end
+  | TBool => match word 4 bs with Some (n, r) => Some (VN (if n =? 0 then 0 else 1), r) | None => None end
+  | TFixed k =>
+      match take_bytes k bs with
+      | Some (b, r) => match take_bytes (pad_len k) r with Some (_, r') => Some (VB b, r') | None => None end
+      | None => None end
+  | TVar mx =>
+      match word 4 bs with
+      | Some (n, r) =>
+          if (match mx with Some m => n <=? m | None => true end) then
+            match take_bytes n r with
+            | Some (b, r1) => match take_bytes (pad_len n) r1 with Some (_, r2) => Some (VB b, r2) | None => None end
+            | None => None end
+          else None
+      | None => None end
+  | TOpt t' =>
+      match word 4 bs with
+      | Some (n, r) => if n =? 0 then Some (VO None, r)
+                       else match dec f' t' r with Some (x, r') => Some (VO (Some x), r') | None => None end
+      | None => None end
+  | TArr32 =>
+      match word 4 bs with
+      | Some (n, r) =>
+          (* a count beyond the input is refused before anything is built *)
+          if n * 4 <=? lenN r then
+            match dec_words (N.to_nat n) r with Some (l, r') => Some (VL l, r') | None => None end
+          else None
+      | None => None end
+  | TRef nm => match lookup_ty E nm with Some t' => dec f' t' bs | None => None end
+  | TSeq items => match dec_items f' items bs [] with Some (fs, r) => Some (VS (rev fs), r) | None => None end
+  end end
+with dec_items (f : nat) (items : list item) (bs : bytes) (seen : list (string * val)) {struct f}
+  : option (list (string * val) * bytes) :=
+  match f with O => None | S f' =>
+  match items with
+  | [] => Some (seen, bs)
+  | IField nm t :: rest =>
+      match dec f' t bs with
+      | Some (v, r) => dec_items f' rest r ((nm, v) :: seen)
+      | None => None end
+  | ISwitch on arms dflt :: rest =>
+      match field_val seen on with
+      | Some d =>
+          match (match find_arm arms d with Some a => Some a | None => dflt end) with
+          | Some body => dec_items f' (body ++ rest) bs seen
+          | None => None end
+      | None => None end
+  end end.
+End Dec.
+
+(* fuel that suffices for a message of a given length under descriptors of bounded nesting *)
+Definition fuel_for (bs : bytes) : nat := 64 + 8 * List.length bs.
